@@ -223,4 +223,338 @@ def scenarios(pid, tier, rng):
                               kinds=("SMA", "EMA", "RSI", "STOCH", "ATR", "MACD", "BBANDS", "OBV"), tag="b"))
     if pid == "C18":
         return fam_manager(rng, pid, k(320, 2000), tzs=TZS[1:], fills=(False, True), hexshare=0.15)
+    if pid == "C14":
+        return fam_maintenance(rng, pid, k(240, 1500))
+    if pid == "C13":
+        return fam_interference(rng, pid, k(90, 1000))
+    if pid == "C19":
+        return fam_reads(rng, pid, k(200, 1200), forms=("candle", "dict", "list", "list_ts_last"))
+    if pid == "C20":
+        return fam_reads(rng, pid, k(220, 1300), touches=False)
+    if pid == "C08":
+        return fam_hexital(rng, pid, k(220, 1300))
+    if pid == "C07":
+        return fam_work(rng, pid, k(130, 700))
     raise KeyError(pid)
+
+
+# ---------------------------------------------------------------------------------------
+# maintenance programs (C14), interference (C13), reads (C19, C20), Hexital = standalone (C08),
+# work (C07).  Programs are grown against a live shadow session so that index arguments are
+# valid for the candle lists as they are at that point (the properties' preconditions).
+NESTED = ["KC", "STOCH", "TSI", "ADX", "BBANDS", "HMA", "MACD", "Supertrend", "RSI", "STDEVTHRES", "ATR"]
+SIMPLE = ["EMA", "SMA", "WMA", "RMA", "TR", "OBV", "ROC", "VWAP", "AROON", "DONCHIAN", "HL", "HLA", "VWMA",
+          "STDEV"]
+
+
+def _uniq(cfgs):
+    """distinct top-level names (Hexital keys its registry by name)"""
+    seen, out = set(), []
+    for c in cfgs:
+        n = c.build(standalone=False).name
+        if n not in seen:
+            seen.add(n)
+            out.append(c)
+    return out
+
+
+def grow_program(rng, sc, n, steps, ops, pre=None):
+    """extend sc['prog'] with `steps` random maintenance calls, using a shadow run to keep
+    calculate_index arguments inside the lists and aimed at fully calculated indicators"""
+    from record import Session
+    from streams import base_for
+
+    tfs = [c.timeframe for c in sc["inds"] + sc.get("late", [])] + [sc.get("hex", {}).get("timeframe")]
+    sh = Session(sc, base_for([t for t in tfs if t]))
+    pre = rng.choice([0, 1, 2, 3, n // 2]) if pre is None else pre
+    prog = [("new", pre)]
+    pos = pre
+    dirty = set()          # indicators with readings pending (purged / added / never calculated)
+    late_left = list(range(len(sc["inds"]), len(sc["inds"]) + len(sc.get("late", []))))
+
+    def shadow(step):
+        try:
+            sh.run(step)
+            return True
+        except Exception:
+            return False
+
+    ok = shadow(prog[0])
+    if ok:
+        dirty = set(sh.active)
+    hexobj = sc["obj"] == "hex"
+    for _ in range(steps):
+        if not ok:
+            break
+        op = rng.choice(ops)
+        names = [sh.live[i] for i in sh.active]
+        tgt = rng.choice(names + [""]) if hexobj and names else ""
+        step = None
+        if op == "append" and pos < n:
+            k = min(n - pos, rng.randint(1, 3))
+            step = ("append", pos + 1, pos + k)
+            pos += k
+            dirty = set()
+        elif op == "calculate":
+            step = ("calculate", tgt)
+            dirty = set() if not tgt else {i for i in dirty if sh.live[i] != tgt}
+        elif op == "purge":
+            step = ("purge", tgt)
+            dirty |= set(sh.active) if not tgt else {i for i in sh.active if sh.live[i] == tgt}
+        elif op == "recalculate":
+            step = ("recalculate", tgt)
+            dirty = set() if not tgt else {i for i in dirty if sh.live[i] != tgt}
+        elif op == "calculate_index":
+            cands = [i for i in sh.active if i not in dirty and (not tgt or sh.live[i] == tgt)]
+            if not dirty or (tgt and cands):
+                who = cands if tgt else list(sh.active)
+                if who:
+                    L = min(len(sh.indicator(i).candles) for i in who)
+                    if L >= 1:
+                        idx = rng.randrange(L)
+                        if rng.random() < 0.5:
+                            idx -= L
+                        step = ("calculate_index", tgt, idx)
+        elif op == "add" and hexobj and late_left:
+            i = late_left.pop(0)
+            step = ("add", i, rng.choice(["obj", "dict", "settings"]))
+            dirty.add(i)
+        elif op == "remove" and hexobj and len(sh.active) > 1:
+            tgt = rng.choice(names)
+            step = ("remove", tgt)
+        if step:
+            prog.append(step)
+            ok = shadow(step)
+            # shared default-named helpers (TR) are purged with whichever owner is purged:
+            # the other owners recompute them on their next calculate -- still "clean"
+    if pos < n and rng.random() < 0.7:
+        prog.append(("append", pos + 1, n))
+    prog.append(("calculate", ""))
+    sc["prog"] = prog
+    return sc
+
+
+MAINT_OPS = ["append", "append", "append", "calculate", "purge", "recalculate", "calculate_index",
+             "calculate_index", "add", "remove"]
+
+
+def fam_maintenance(rng, pid, count):
+    out = []
+    for t in range(count):
+        n = rng.randint(14, 22)
+        if t % 3 == 0:       # standalone indicator
+            cfg = rand_cfg(rng, rng.choice(NESTED + SIMPLE), tf=pick_tf(rng) if rng.random() < 0.3 else None)
+            sc = {"id": f"{pid}/ind/{cfg.kind}/{t}", "fam": "maint", "obj": "ind", "inds": [cfg],
+                  "stream": make_stream(rng, n, "mixed", tf=cfg.timeframe), "twins": ["batch"],
+                  "clause_props": {"exc": ["C14"], "batch": ["C14"], "value": ["C14"]}}
+            ops = [o for o in MAINT_OPS if o not in ("add", "remove")]
+        else:
+            tf = pick_tf(rng) if rng.random() < 0.35 else None
+            kinds = [rng.choice(NESTED), rng.choice(SIMPLE), rng.choice(NESTED + SIMPLE)]
+            cfgs = _uniq([rand_cfg(rng, k, tf=tf if rng.random() < 0.5 else None) for k in kinds])
+            late = _uniq(cfgs + [rand_cfg(rng, rng.choice(NESTED + SIMPLE), tf=tf if rng.random() < 0.5 else None)])[len(cfgs):]
+            sc = {"id": f"{pid}/hex/{'+'.join(c.kind for c in cfgs)}/{t}", "fam": "maint", "obj": "hex",
+                  "inds": cfgs, "late": late, "hex": {}, "stream": make_stream(rng, n, "mixed", tf=tf),
+                  "twins": ["final_batch"], "member_forms": ["obj"] * len(cfgs),
+                  "clause_props": {"exc": ["C14"], "batch": ["C14"], "value": ["C14"]}}
+            ops = MAINT_OPS
+        out.append(grow_program(rng, sc, n, rng.randint(5, 10), ops))
+    return out
+
+
+PAIRS = [
+    (("EMA", dict(p=2)), ("EMA", dict(p=20))),
+    (("RSI", dict(p=2)), ("RSI", dict(p=20))),
+    (("BBANDS", dict(p=3)), ("SMA", dict(p=3))),
+    (("BBANDS", dict(p=4)), ("STDEV", dict(p=4))),
+    (("ATR", dict(p=3)), ("TR", {})),
+    (("KC", dict(p=3)), ("TR", {})),
+    (("KC", dict(p=3)), ("Supertrend", dict(p=3))),
+    (("ADX", dict(p=2)), ("ATR", dict(p=2))),
+    (("Supertrend", dict(p=2)), ("HLA", {})),
+    (("SMA", dict(p=3)), ("SMA", dict(p=30))),
+    (("ROC", dict(p=2)), ("OBV", {})),
+]
+
+
+def fam_interference(rng, pid, count):
+    out = []
+    for t in range(count):
+        if t % 4 == 3:
+            cfgs = _uniq([rand_cfg(rng, k) for k in rng.sample(NESTED + SIMPLE, 3)])
+        else:
+            (ka, pa), (kb, pb) = PAIRS[t % len(PAIRS)]
+            cfgs = [IndCfg(ka, **pa), IndCfg(kb, **pb)]
+            if rng.random() < 0.5:
+                cfgs.reverse()
+            if rng.random() < 0.3:
+                cfgs += _uniq(cfgs + [rand_cfg(rng, rng.choice(SIMPLE))])[len(cfgs):]
+        n = rng.randint(24, 30)
+        names = [c.build(standalone=False).name for c in cfgs]
+        pre, chunks = compositions(rng, n - 6, (0, 2, 5), 5)
+        prog = prog_for(pre, chunks)
+        victim = rng.choice(names)
+        a = n - 6
+        for op in rng.sample(["purge", "recalculate", "purge", "recalculate"], 3):
+            prog.append((op, victim))
+            prog.append(("append", a + 1, a + 1))
+            a += 1
+        removed = rng.random() < 0.5
+        if removed:
+            prog.append(("remove", victim))
+        prog.append(("append", a + 1, n))
+        out.append({"id": f"{pid}/pair/{'+'.join(names)}/{t}", "fam": "interf", "obj": "hex", "inds": cfgs,
+                    "hex": {}, "stream": make_stream(rng, n, "mixed"), "prog": prog,
+                    "twins": ["alone", "reorder"] if not removed else ["alone"],
+                    "member_forms": ["obj"] * len(cfgs),
+                    "clause_props": {"exc": ["C13"], "alone": ["C13"], "reorder": ["C13"],
+                                     "interfere": ["C13"], "value": ["C13"], "gap": ["C13"]}})
+    return out
+
+
+ZERO_KINDS = [("Counter", dict(inp="volume", count_value=3)), ("STDEVTHRES", dict(p=3)), ("AROON", dict(p=3)),
+              ("MACD", dict(p=2, p2=4, p3=2)), ("OBV", {}), ("ROC", dict(p=2)), ("Supertrend", dict(p=2)),
+              ("STOCH", dict(p=3)), ("RSI", dict(p=2)), ("EMA", dict(p=3)), ("BBANDS", dict(p=3))]
+DICT_FIELDS = {"AROON": ["AROONU", "AROOND", "AROONOSC"], "MACD": ["MACD", "signal", "histogram"],
+               "Supertrend": ["trend", "direction", "long", "short"], "STOCH": ["stoch", "k", "d"],
+               "BBANDS": ["BBL", "BBM", "BBU"]}
+TOUCHES = ["str", "repr", "name", "settings", "reading_period", "candles_sum"]
+
+
+def read_batch(rng, sc, names, kinds, lens_hint, hexobj, touches=True):
+    from record import NOIDX
+
+    rd = []
+    for i, (nm, kind) in enumerate(zip(names, kinds)):
+        fields = [""] + DICT_FIELDS.get(kind, [])
+        for _ in range(3):
+            f = rng.choice(fields)
+            full = nm + ("." + f if f else "")
+            L = lens_hint
+            idx = rng.randrange(-L, L) if L else NOIDX
+            rd.append(("ind.reading", i, full, rng.choice([idx, NOIDX])))
+            if L:
+                rd.append(("ind.reading", i, full, idx % L))
+                rd.append(("ind.reading", i, full, (idx % L) - L))
+                rd.append(("ind.read_candle", i, full, idx))
+            rd.append(("ind.prev_reading", i, full, NOIDX))
+            rd.append(("ind.as_list", i, full, NOIDX))
+            rd.append(("ind.reading_count", i, full, NOIDX))
+            if hexobj:
+                rd.append(("hex.reading", -1, full, rng.choice([NOIDX, idx])))
+                rd.append(("hex.prev_reading", -1, full, NOIDX))
+                rd.append(("hex.reading_as_list", -1, full, NOIDX))
+                rd.append(("hex.has_reading", -1, full, NOIDX))
+        rd.append(("ind.has_reading", i, "", NOIDX))
+        rd.append(("ind.reading", i, rng.choice(["close", "high", "volume"]), NOIDX))
+        if touches:
+            for w in TOUCHES:
+                rd.append((w, i, "", NOIDX))
+    if hexobj:
+        rd.append(("hex.reading", -1, "nonexistent", NOIDX))
+        rd.append(("hex.reading_as_list", -1, "nonexistent", NOIDX))
+        if touches:
+            rd += [("str", -1, "", NOIDX), ("repr", -1, "", NOIDX), ("settings", -1, "", NOIDX),
+                   ("hex.misc", -1, "", NOIDX)]
+    rng.shuffle(rd)
+    return rd
+
+
+def fam_reads(rng, pid, count, forms=("candle",), touches=True):
+    out = []
+    for t in range(count):
+        hexobj = t % 2 == 1
+        n = rng.randint(10, 16)
+        picks = rng.sample(ZERO_KINDS, 2 if hexobj else 1)
+        tf = pick_tf(rng) if rng.random() < 0.4 else None
+        cfgs = [IndCfg(k, **dict(p, timeframe=(tf if (j == 1 or not hexobj) else None))) for j, (k, p) in enumerate(picks)]
+        if hexobj and rng.random() < 0.5:
+            cfgs.append(rand_cfg(rng, "SMA", tf=pick_tf(rng)))
+        cfgs = _uniq(cfgs)
+        names = [c.build(standalone=not hexobj).name for c in cfgs]
+        kinds = [c.kind for c in cfgs]
+        form = rng.choice(forms)
+        style = rng.choice(["mixed", "flat", "up", "walk"])
+        regular = tf_regular(rng, tf) if tf else None
+        st = make_stream(rng, n, style, tf=tf, regular=regular)
+        pre, chunks = compositions(rng, n, (0, 1, 3), 3)
+        sc = {"id": f"{pid}/{'hex' if hexobj else 'ind'}/{'+'.join(kinds)}/{form}/{t}", "fam": "reads",
+              "obj": "hex" if hexobj else "ind", "inds": cfgs, "hex": {}, "stream": st, "form": form,
+              "twins": [], "member_forms": ["obj"] * len(cfgs), "single_unwrapped": rng.random() < 0.5,
+              "clause_props": {"exc": [pid], "stage": ["C19"], "def": ["C19"], "sideeffect": ["C19"],
+                               "attrs": ["C19"], "args": ["C19"], "read": ["C20"]}}
+        prog = [("new", pre)]
+        if pre >= 1:     # index arguments must be in range: no reads on empty lists
+            prog.append(("reads", read_batch(rng, sc, names, kinds, 1 if rng.random() < 0.5 else 0, hexobj, touches)))
+        a = pre
+        for k in chunks:
+            prog.append(("append", a + 1, a + k))
+            a += k
+            if rng.random() < 0.7:
+                # in-range indices for every list involved: the shortest list has >= 1 candle
+                prog.append(("reads", read_batch(rng, sc, names, kinds, 1, hexobj, touches)))
+        sc["prog"] = prog
+        out.append(sc)
+    return out
+
+
+def fam_hexital(rng, pid, count):
+    """Hexital members against standalone twins.  Timeframes inside one Hexital stay within a
+    factor of 6 of each other and the stream is spaced on the smallest, so every timeframe
+    sees several buckets and gap filling stays small."""
+    from streams import tf_seconds
+
+    LADDERS = [["S10", "S30", "T1"], ["T1", "T5"], ["T5", "T10", "T15"], ["S5", "S10", "S30"], ["H1", "H2", "H4"],
+               ["T15", "T30", "H1"]]
+    out = []
+    for t in range(count):
+        nmem = rng.choice([1, 2, 2, 3])
+        ladder = rng.choice(LADDERS)
+        base_tf = rng.choice([None, None, None, ladder[0]])
+        cfgs = _uniq([rand_cfg(rng, rng.choice(ALL_KINDS), tf=rng.choice([None] + ladder))
+                      for _ in range(nmem)])
+        fill = bool(base_tf) and rng.random() < 0.3
+        ha = rng.random() < 0.2 and not fill
+        tfs = [c.timeframe for c in cfgs] + [base_tf]
+        secs = sorted(tf_seconds(x) for x in tfs if x)
+        biggest = secs[-1] if secs else 60
+        life = timedelta(seconds=biggest * rng.choice([12, 20])) if rng.random() < 0.15 else None
+        hexcfg = {"timeframe": base_tf, "fill": fill, "lifespan": life, "ctype": "HA" if ha else None}
+        n = rng.randint(16, 22) if ha else rng.randint(20, 34)   # HA values double their denominator per candle
+        small = next((x for x in ladder if x in tfs), None)
+        regular = None
+        if small:
+            regular = max(1, tf_seconds(small) // rng.choice([1, 2, 3])) if rng.random() < 0.75 else None
+        sc = hex_scenario(rng, f"{pid}/hex/{'+'.join(c.kind for c in cfgs)}/{t}", "hexital", cfgs, n,
+                          # Heikin-Ashi chains stay exact (dyadic) only on integer prices
+                          rng.choice(["mixed", "walk"] if ha else ["mixed", "walk", "decimal"]),
+                          twins=("standalone",), hexcfg=hexcfg,
+                          tf=small, regular=regular,
+                          pre_choices=(0, 1, 2, n), forms=[rng.choice(["obj", "dict", "settings"]) for _ in cfgs],
+                          form=rng.choice(["candle", "candle", "dict"]))
+        sc["clause_props"] = {"exc": ["C08"], "stage": ["C08"], "def": ["C08"], "value": ["C08"]}
+        out.append(sc)
+    return out
+
+
+def fam_work(rng, pid, count):
+    out = []
+    kinds = ALL_KINDS
+    for t in range(count):
+        tf = pick_tf(rng) if t % 4 == 3 else None
+        hexobj = t % 5 == 4
+        hist = rng.randint(26, 34)
+        n = hist + 6
+        if hexobj:
+            cfgs = _uniq([rand_cfg(rng, k) for k in rng.sample(kinds, 4)])
+            sc = {"id": f"{pid}/hex/{t}", "obj": "hex", "inds": cfgs, "hex": {}, "member_forms": ["obj"] * len(cfgs)}
+        else:
+            cfg = rand_cfg(rng, kinds[t % len(kinds)], tf=tf)
+            sc = {"id": f"{pid}/{cfg.kind}/{t}", "obj": "ind", "inds": [cfg]}
+        regular = tf_regular(rng, tf) if tf else None
+        sc.update({"fam": "work", "stream": make_stream(rng, n, "mixed", tf=tf, regular=regular), "twins": [],
+                   "work": True,
+                   "prog": [("new", hist), ("calculate", "")] + [("append", hist + i, hist + i) for i in range(1, 7)],
+                   "clause_props": {"work": ["C07"], "exc": ["C07"]}})
+        out.append(sc)
+    return out
